@@ -42,6 +42,7 @@ type Tier struct {
 // Unit functions by name.
 var Units = map[string]func(p *load.Program, r *Roles, t Tier) *UnitResult{
 	"loops": func(p *load.Program, r *Roles, t Tier) *UnitResult { return AnalyzeRetryLoops(p, r) },
+	"pool":  func(p *load.Program, r *Roles, t Tier) *UnitResult { return AnalyzePool(p, r, t.Depth) },
 	"store": func(p *load.Program, r *Roles, t Tier) *UnitResult { return AnalyzeStore(p, r, t.Depth) },
 	"flow":  func(p *load.Program, r *Roles, t Tier) *UnitResult { return AnalyzeFlow(p, r, t.Depth) },
 	"run": func(p *load.Program, r *Roles, t Tier) *UnitResult {
@@ -149,6 +150,20 @@ func init() {
 		CaseRule:    "an obligation instance is one abstract path of one method; distinct = distinct rule@construct keys",
 		Floors:      []Floor{{"C14.R1@SharedStore.*:effect-summary", 20, "effect summaries of all methods"}, {"C14.R2@*", 1, "map field only holds fresh maps"}},
 		Assumptions: append(append([]string{}, commonAssumptions...), "Go's built-in map is the reference; deep aliasing of stored values is outside the property")})
+	poolExpl := "NewWorkerPool, the worker method it starts, Submit, the wrapper closure Submit enqueues, Wait and Close are each explored path-sensitively with sync/channel operations as events; a whole-package scan bounds who may start goroutines and who may touch the pool's fields and task channels."
+	reg(&Prop{ID: "C12", Units: []string{"pool"}, Technique: "static analysis: path-sensitive typestate over sync/channel events of the pool's functions + who-may-touch scan",
+		Explanation: poolExpl + " C12 decides: Submit registers exactly one pending task on the pool's WaitGroup before a blocking send (an ssa.Send, not a select case) of a wrapper closure; the wrapper calls the captured task exactly once on every path and signals Done on the same WaitGroup exactly once after it (deferred before the call or post-dominating it); only the worker receives from the task channel and it calls each received function exactly once before receiving again; Wait reaches wg.Wait on the pool's WaitGroup on every path; Close closes at least one pool channel (each once) on which the worker's blocking point listens with an edge to return; no pool field is touched outside the pool's own functions.",
+		CaseRule:    "an obligation instance is one (abstract path, event) pair in one pool function; distinct = distinct rule@construct keys",
+		Floors: []Floor{{"C12.R1@WorkerPool.Submit:wg-add", 1, "Add before send"}, {"C12.R2@WorkerPool.Submit:enqueue", 1, "blocking send"}, {"C12.R3@WorkerPool.Submit.wrapper:return", 1, "wrapper runs task once, Done once"},
+			{"C12.R3@WorkerPool.Submit.wrapper:done", 1, "Done on the pool's WaitGroup"}, {"C12.R4@WorkerPool.worker:return", 1, "worker exits on close/done"}, {"C12.R5@WorkerPool.Wait:*", 2, "Wait"}, {"C12.R6@WorkerPool.Close:*", 3, "Close"}, {"C12.R7@package:*", 1, "who may touch"}},
+		Assumptions: append(append([]string{}, commonAssumptions...), "visibility of task effects after Wait is the WaitGroup happens-before contract; Submit after Close is outside the property")})
+	reg(&Prop{ID: "C08", Units: []string{"pool", "run"}, Technique: "static analysis: trip-count analysis of the spawn loop + path-sensitive typestate of worker and batch dispatch",
+		Explanation: poolExpl + " " + batchExpl + " C08 decides: the only go statement of the package is in the pool constructor and starts the worker method on the new pool; its loop runs exactly max(1, workers) times (scalar-evolution arithmetic plus bound provenance: `workers` under workers>0, the constant 1 otherwise), one start per iteration; the worker's only blocking point is the receive on the pool's channels and it runs each received task synchronously, once, with no goroutine of its own; only pool functions send/receive on task channels; on the batch paths the pool is sized by the configured concurrency read from the node being run, items are executed only inside submitted tasks when concurrency>0 and only by the in-order sequential loop (index 0, step 1) when concurrency<=0. Hence at most c executions in flight and exactly c independent workers.",
+		CaseRule:    "an obligation instance is one (abstract path, event) pair or one static loop/package scan; distinct = distinct rule@construct keys",
+		Floors: []Floor{{"C08.R1@package:go-statements", 1, "single go statement"}, {"C08.R1@NewWorkerPool:spawn", 1, "worker start"}, {"C08.R1@NewWorkerPool:spawn-loop-count", 1, "spawn loop arithmetic"}, {"C08.R1@NewWorkerPool:spawn-bound", 1, "bound provenance (workers>0 and workers<=0)"},
+			{"C08.R2@WorkerPool.worker:task-call", 1, "synchronous single call"}, {"C08.R2@WorkerPool.worker:receive", 1, "blocking receive"}, {"C08.R3@package:pool-field-access", 1, "channel ownership"},
+			{"C08.R4@batch|*:pool-size", 1, "pool sized by configuration"}, {"C08.R4@batch|*:item-exec", 1, "exec inside tasks"}, {"C08.R5@batch|*:item-exec", 1, "sequential dispatch"}, {"C08.R6@batch|*:config-read", 1, "configuration read from the node"}},
+		Assumptions: append(append([]string{}, commonAssumptions...), "that the Go scheduler actually runs the c workers in parallel and that blocked user tasks make progress is not decided")})
 	reg(&Prop{ID: "C04", Units: []string{"run", "flow"}, Technique: "static analysis: path-sensitive error-provenance (wrap-chain) abstract interpretation over go/ssa",
 		Explanation: lifeExpl + " C04 decides on Run (single and batch paths): nil error iff the path ended in a successful post; every error return that follows a failing callback wraps (fmt.Errorf %w / errors.Join / identity) that callback's own error term, and no further phase callback is invoked after it.",
 		CaseRule:    "an obligation instance is one (abstract path, return or call site) pair; distinct = distinct rule@construct keys",
